@@ -944,6 +944,74 @@ func c14R8(c *Ctx) {
 		c.verdict(okRead && okStore, rule, key, c.pos(site.Pos()), "the preparation's own Workflow value gets "+c.fnName(helper)+"("+fname+" of the caller's workflow) before anyone else sees it; the caller's "+fname+" is read for nothing else",
 			fmt.Sprintf("Prepare works on the caller's %s (read only to copy=%v, copy stored before first use=%v): the expression objects in it are annotated in place", fname, okRead, okStore))
 	}
+	// the declared output schemas: linking their scopes (ApplySelf / ApplyNamespace) writes into them, so the preparation
+	// needs its own objects here as well (found defect D27, introduced by the repairs of D17 / D24)
+	if f := c.field(pkgWorkflow, "Workflow", "OutputSchema"); f != nil {
+		linked := false
+		for _, fn2 := range c.RepoFns {
+			if c.excluded(fn2) || pkgPathOf(fn2) != pkgWorkflow {
+				continue
+			}
+			eachInstr(fn2, func(r instrRef) {
+				if cc := callCommon(r.I); cc != nil && cc.IsInvoke() && (cc.Method.Name() == "ApplySelf" || cc.Method.Name() == "ApplyNamespace") {
+					linked = true
+				}
+			})
+		}
+		if linked {
+			var st *ssa.Store
+			eachInstr(site, func(r instrRef) {
+				s2, ok := r.I.(*ssa.Store)
+				if !ok {
+					return
+				}
+				fa, ok := s2.Addr.(*ssa.FieldAddr)
+				if !ok || fa.X != ssa.Value(own) || fieldAddrVar(fa) != f {
+					return
+				}
+				// the value comes out of a function of the repository that builds a new map and puts no element of its
+				// argument into it as it is
+				derivesFrom(s2.Val, func(v ssa.Value) bool {
+					cl, ok := v.(*ssa.Call)
+					if !ok {
+						return false
+					}
+					h := cl.Common().StaticCallee()
+					if h == nil || !isRepoFn(h) || len(h.Blocks) == 0 {
+						return false
+					}
+					fresh, shares := false, false
+					eachInstr(h, func(r2 instrRef) {
+						if _, ok := r2.I.(*ssa.MakeMap); ok {
+							fresh = true
+						}
+						if mu, ok := r2.I.(*ssa.MapUpdate); ok {
+							if _, isNext := mu.Value.(*ssa.Extract); isNext && !isNilConst(mu.Value) {
+								if ex := mu.Value.(*ssa.Extract); ex.Index == 2 {
+									shares = true
+								}
+							}
+						}
+					})
+					if fresh && !shares {
+						st = s2
+						return true
+					}
+					return false
+				})
+			})
+			okStore := st != nil && dominates(ownStore, st)
+			if okStore {
+				for _, u := range uses {
+					if !dominates(st, u) {
+						okStore = false
+					}
+				}
+			}
+			c.verdict(okStore, rule, "copied:OutputSchema", c.pos(site.Pos()), "the preparation's own Workflow value gets new output schema objects before anyone else sees it",
+				"Prepare links the scopes of the caller's declared output schemas in place (ApplySelf / ApplyNamespace write into them): two preparations of the same parsed workflow, or a preparation during a run, race on those objects")
+		}
+	}
 	c.minCount(rule, "places where the preparation's own workflow becomes visible", len(uses), 1)
 }
 
@@ -1053,6 +1121,46 @@ func copyHelperCases(fn *ssa.Function) (map[string]bool, []string) {
 				}
 			}
 		})
+	})
+	// elements: what goes into a new map / list of interface-typed elements comes out of the copy itself (the recursion);
+	// an element handed over as it is keeps the expression objects below it shared
+	eachInstr(fn, func(r instrRef) {
+		var container, val ssa.Value
+		switch x := r.I.(type) {
+		case *ssa.MapUpdate:
+			container, val = x.Map, x.Value
+		case *ssa.Store:
+			if ia, ok := x.Addr.(*ssa.IndexAddr); ok {
+				container, val = ia.X, x.Val
+			}
+		}
+		if container == nil {
+			return
+		}
+		_, freshMap := container.(*ssa.MakeMap)
+		_, freshSlice := container.(*ssa.MakeSlice)
+		if !freshMap && !freshSlice {
+			return
+		}
+		if _, isIface := val.Type().Underlying().(*types.Interface); !isIface {
+			return
+		}
+		viaCopy := false
+		switch v := val.(type) {
+		case *ssa.Call:
+			if f := v.Common().StaticCallee(); f != nil && (f == fn || isRepoFn(f)) {
+				viaCopy = true
+			}
+		case *ssa.MakeInterface:
+			if cl, ok := v.X.(*ssa.Call); ok {
+				if f := cl.Common().StaticCallee(); f != nil && (f == fn || isRepoFn(f)) {
+					viaCopy = true
+				}
+			}
+		}
+		if !viaCopy {
+			problems = append(problems, "an element is put into the new container as it is ("+fn.Prog.Fset.Position(r.I.Pos()).String()+"): what is below it stays shared")
+		}
 	})
 	sort.Strings(problems)
 	return covered, problems
